@@ -92,7 +92,37 @@ class Chain:
         return [repr(o) for o in self.ops]
 
 
-def extract_chain(model: Model, qual: str = "serialize.canonical_string") -> Tuple[Optional[Chain], Optional[str], Any]:
+class Piecewise:
+    """A string function given as guarded op chains: the first case whose conditions hold applies."""
+
+    def __init__(self) -> None:
+        self.cases: List[Tuple[List[Tuple[str, Any, bool]], Chain]] = []
+
+    def apply(self, s: str) -> str:
+        for conds, ch in self.cases:
+            if all(_holds(kind, arg, s) == truth for kind, arg, truth in conds):
+                return ch.apply(s)
+        raise AnalysisError(f"no case of the string function covers {s!r}")
+
+    def show(self) -> List[str]:
+        return [f"if {conds}: {ch.show()}" for conds, ch in self.cases]
+
+
+def _holds(kind: str, arg: Any, s: str) -> bool:
+    """A1 models of the string predicates a writer may branch on, evaluated on a test string."""
+    if kind == "contains":
+        return arg in s
+    if kind == "strpred":
+        name, a = arg
+        if a:
+            return bool(getattr(s, name)(*a))
+        return bool(getattr(s, name)())
+    if kind == "len-le":
+        return len(s) <= arg
+    raise AnalysisError(f"unmodelled condition {kind}")
+
+
+def extract_chain(model: Model, qual: str = "serialize.canonical_string") -> Tuple[Optional[Any], Optional[str], Any]:
     fn = model.func(qual)
 
     def body(it: Interp) -> Any:
@@ -103,9 +133,43 @@ def extract_chain(model: Model, qual: str = "serialize.canonical_string") -> Tup
         runs = paths(model, body)
     except Unsupported as err:
         return None, str(err), fn
-    if len(runs) != 1 or runs[0].kind != "return":
-        return None, "canonical_string has more than one path or raises", fn
-    r, v = runs[0].value
+    if any(r.kind != "return" for r in runs):
+        return None, "canonical_string raises on some path", fn
+    if len(runs) == 1:
+        ch, err = _chain_of(runs[0].value[0], runs[0].value[1])
+        return ch, err, fn
+    pw = Piecewise()
+    for run in runs:
+        r, v = run.value
+        conds: List[Tuple[str, Any, bool]] = []
+        for key, val in run.ctx.world.items():
+            info = run.ctx.atom_info.get(key)
+            if info is None:
+                if isinstance(key, tuple) and key[0] == "le0":
+                    (coefs, const) = key[1]
+                    if len(coefs) == 1 and coefs[0][0] == v.len_var and coefs[0][1] == 1:
+                        conds.append(("len-le", -const, bool(val)))
+                        continue
+                    return None, f"condition {key!r} on the string is not modelled", fn
+                continue
+            if info["kind"] == "contains" and info["recv"] is v:
+                conds.append(("contains", info["item"], bool(val)))
+            elif info["kind"] == "strpred" and info["recv"] is v:
+                try:
+                    args = tuple(a.value if isinstance(a, Const) else tuple(x.value for x in a.items) for a in info["args"])
+                except AttributeError:
+                    return None, "string predicate with a dynamic argument", fn
+                conds.append(("strpred", (info["name"], args), bool(val)))
+            else:
+                return None, f"condition of kind {info['kind']} is not modelled", fn
+        ch, err = _chain_of(r, v)
+        if ch is None:
+            return None, err, fn
+        pw.cases.append((conds, ch))
+    return pw, None, fn
+
+
+def _chain_of(r: Any, v: Any) -> Tuple[Optional[Chain], Optional[str]]:
     ch = Chain()
 
     def walk(t: Any) -> Optional[str]:
@@ -169,8 +233,8 @@ def extract_chain(model: Model, qual: str = "serialize.canonical_string") -> Tup
 
     err = walk(r)
     if err:
-        return None, err, fn
-    return ch, None, fn
+        return None, err
+    return ch, None
 
 
 SPECIALS = ['"', "'", "\\", "\x08", "\t", "\n", "\x0c", "\r", "\x00", "\x1f", "/", "a", "u", "0", "b", "n"]
